@@ -40,7 +40,7 @@ package packet
 // C07: sender stage (one decision-table row per received packet)
 //
 //@ func FreeSerializeBuffer
-//@   props C07 C01
+//@   props C07 C01 C05
 //@   observe Clear, Put
 //@   entry row clearerr: [call Clear(buf) as (e)] when e != nil && ret == e -> exit
 //@   entry row ok:       [call Clear(buf) as (e) ; call Put(_, bind_x)] when e == nil && ret == nil && x == buf -> exit
@@ -50,7 +50,7 @@ package packet
 //@   ensures ret != nil
 
 //@ func (*sender).SendPackets$1
-//@   props C07 C12 C01 C16
+//@   props C07 C12 C01 C16 C05
 //@   observe Bytes, WritePacketData, FreeSerializeBuffer
 //@   loop 0 row cancel: [ctxdone ; close done ; close errc] -> exit
 //@   loop 0 row closed: [recv in as (pkt, false) ; close done ; close errc] -> exit
